@@ -34,6 +34,8 @@ CONFIGS = [
     ("mcsum128", ["-t", "ext4", "-b", "1024", "-g", "4096", "-O", "metadata_csum,^64bit,^flex_bg", "-I", "128"], "6M"),
     ("seed", ["-t", "ext4", "-b", "2048", "-O", "metadata_csum,64bit,metadata_csum_seed", "-I", "512"], "8M"),
     ("gdtcsum", ["-t", "ext4", "-b", "1024", "-g", "2048", "-O", "^metadata_csum,uninit_bg", "-I", "256"], "6M"),
+    ("desc128", ["-t", "ext4", "-b", "1024", "-O", "64bit,metadata_csum", "-E", "desc_size=128", "-I", "256", "-N", "256"], "8M"),
+    ("gdtcsum_desc128", ["-t", "ext4", "-b", "2048", "-O", "64bit,^metadata_csum,uninit_bg", "-E", "desc_size=128", "-N", "256"], "8M"),
     ("mmp", ["-t", "ext4", "-b", "4096", "-O", "metadata_csum,mmp", "-I", "256"], "16M"),
 ]
 
@@ -261,7 +263,7 @@ def run(res, replay=None):
     # ---- B/C. objects of real images
     total_objs, bad_format, kinds = 0, [], {}
     flips, flip_bad, escalated = 0, [], 0
-    imgs = CONFIGS if tier == "thorough" else CONFIGS[:4] + CONFIGS[4:5]
+    imgs = CONFIGS if tier == "thorough" else CONFIGS[:7]
     for name, opts, size in imgs:
         img = build_image(src, name, opts, size, seed0)
         fs = Fs(img)
